@@ -56,7 +56,7 @@ def _run_chunk(args):
         elif crashed_at is None:
             crashed_at = c["name"]
             r.cpp = lines
-            r.crash = (err[-3000:] if err else "harness exit code %d without output" % rc)
+            r.crash = ((err if len(err) < 5000 else err[:3500] + "\n[...]\n" + err[-1500:]) if err else "harness exit code %d without output" % rc)
         else:
             r.cpp = None
         r.lean = lean.get(c["name"])
